@@ -26,7 +26,8 @@ def meta(tier, seed):
                 "b(r)), or a new binarizer is installed by add_arm; distinct by the full case",
         "oracle": "ThompsonSampling(binarizer) vs ThompsonSampling() fed [binarizer_in_force(arm, r)] per observation, same "
                   "seed and calls: complete canonical object graphs equal up to the binarizer fields, or predict and "
-                  "predict_expectations on the query set identical (equal Beta parameters => equal draws)",
+                  "predict_expectations on the query set identical (equal Beta parameters => equal draws); the number of "
+                  "binarizer invocations during training equals the number of observations",
         "bounds": {"rows_max": 3 if tier == "quick" else 4, "row_alphabet": ROWS, "binarizers": BINS,
                    "neighbourhood_policies": NPS_, "variants": ["plain", "add_arm(3, new binarizer) after the first call"],
                    "n_jobs": "1; additionally 2 (joblib model, default schedule) with up to 3 rows for %s" % (
@@ -105,11 +106,16 @@ def _judge(nn, b, seed, seq, comp, variant, n_jobs):
         t = run_ops(cfg_t, twin_ops)
     except Exception:                                         # noqa: BLE001
         return None
+    ops.BIN_CALLS[0] = 0
     try:
         s = run_ops(cfg_s, sub_ops)
     except Exception as e:                                    # noqa: BLE001
         return ["with a binarizer the history raises %s: %s; the twin on converted rewards accepts it" % (
             type(e).__name__, str(e)[:150])], nontrivial
+    calls, rows = ops.BIN_CALLS[0], sum(len(o[1]) for o in sub_ops if o[0] in ("fit", "partial_fit"))
+    if calls != rows:
+        # a binarizer need not be a pure function (adaptive thresholds, budgets): the number of invocations is observable
+        return ["training on %d observations invoked the binarizer %d times" % (rows, calls)], nontrivial
     cf = ops.is_context_free(cfg_s)
     qs = [None] if cf else [QUERIES, QUERIES[1:2]]
     if nn == "knn" and len(seq) < 2:
